@@ -120,7 +120,7 @@ Example lx_hypotheses_satisfiable :
   (forall j, (1 <= j < 4)%nat -> lconvk float PrimFloat.sub PrimFloat.abs PrimFloat.ltb fzero sev eb ea lx_ids o t c0 lx_s1 j = false).
 Proof.
   cbv zeta. split; [reflexivity|]. split.
-  { split; [split; reflexivity|]. repeat constructor. }
+  { split; [split; reflexivity|]. split; [repeat constructor|]. repeat constructor; cbn; discriminate. }
   split; [vm_compute; reflexivity|]. split; [vm_compute; reflexivity|]. split.
   { intros i Hi. destruct i as [|[|[|[|[|[|[|i]]]]]]]; try lia; vm_compute; reflexivity. }
   split; [intros k s'; reflexivity|]. split; [vm_compute; reflexivity|].
